@@ -400,6 +400,7 @@ func TestVerifC07(t *testing.T) {
 	}
 	c07Explore(rep, t, []string{"X"}, d1, false)
 	c07Explore(rep, t, []string{"X", "Y"}, d2, false)
+	c07Explore(rep, t, []string{"O"}, 3, false)
 	if vrep.Thorough() {
 		c07Explore(rep, t, []string{"X"}, 6, true)
 	} else {
